@@ -42,7 +42,24 @@ impl Judge<'_> {
         if obs.log.budget_exhausted {
             return self.fail(rep, "no-progress", "step budget exhausted".into());
         }
-        let spawns = obs.spawn_argvs();
+        let mut spawns = obs.spawn_argvs();
+        if matches!(self.sc.real, Some(crate::xargs::RealKind::SimchildOnPath { .. })) {
+            // who searches PATH - the library call or xargs itself - is not for the statements
+            // to say: a program spelled as a path to the right, executable file is the command
+            for argv in spawns.iter_mut() {
+                if let Some(p) = argv.first_mut() {
+                    let path = std::path::Path::new(crate::sys::os(p));
+                    let same_name = path.file_name().map(|n| n == crate::xargs::PATH_CMD).unwrap_or(false);
+                    let executable = std::fs::metadata(path).map(|m| {
+                        use std::os::unix::fs::PermissionsExt;
+                        m.is_file() && m.permissions().mode() & 0o111 != 0
+                    });
+                    if p.contains(&b'/') && same_name && executable.unwrap_or(false) {
+                        *p = crate::xargs::PATH_CMD.as_bytes().to_vec();
+                    }
+                }
+            }
+        }
         let cmd: Vec<&[u8]> = obs.cmd.iter().map(|c| c.as_bytes()).collect();
         let ncmd = cmd.len();
 
